@@ -14,6 +14,7 @@ import Driver.IterSys
 import Matreex.Model.Convert
 import Matreex.Gen.Macros
 import Matreex.Model.Eq
+import Matreex.Model.Effects
 import Driver.Fmt
 
 namespace Driver
@@ -149,6 +150,23 @@ def stepHist (w : World) (ws : List String) : Option (World × String) :=
     -- requests that would succeed but are too large to run are skipped on both sides
     if nr * nc ≤ usizeMax ∧ w.es * (nr * nc) ≤ isizeMax ∧ nr * nc > 100000 then pure (w, "skipped") else
     pure (inplaceRes w r (fun m => m.resize w.es ⟨nr, nc⟩ w.dfltStr))
+  | ["fresize", r, k, nr, nc] => do
+    -- `resize` with caller-code invocation number `k` (a `T::default` while growing, a `Drop` of
+    -- the tail while shrinking) panicking and the unwind caught: the survivor is the one of the
+    -- fault-schedule model (`Effects.resizeFixed`, the function the C02 theorems are about)
+    let r ← r.toNat?; let k ← k.toNat?; let nr ← nr.toNat?; let nc ← nc.toNat?
+    let m ← w.get r
+    match m.resize w.es ⟨nr, nc⟩ w.dfltStr with
+    | .error e => pure (w, faultStr e)
+    | .ok (.error e, m') => pure (w.set r (some m'), "err " ++ e.name ++ " | " ++ stStr m')
+    | .ok (.ok (), m') =>
+      let old := m.data.size
+      let w0 : Matreex.Effects.World Nat := ⟨0, ⟨m.shape, List.range old⟩, []⟩
+      let (s, o) := Matreex.Effects.resizeFixed (· == k) (fun _ => old) m'.shape w0
+      let data := s.mat.data.map (fun v => if v < old then m.data[v]! else w.dfltStr)
+      let m'' : Matrix String := { m with shape := s.mat.shape, data := data.toArray }
+      let tag := match o with | .done => "ok" | .unwound => "unwound" | .aborted => "aborted"
+      pure (w.set r (some m''), tag ++ " | " ++ stStr m'')
   | ["overwrite", r, q] => do
     let r ← r.toNat?; let q ← q.toNat?
     let src ← w.get q
